@@ -369,7 +369,7 @@ func runCrashCase(p eng.Profile, c crashCase, tornAll bool, res *crashOut) {
 		midPoints = []string{"cmp.closed", "cmp.renamed", "cmp.filled", "cmp.swapped", "snap.tmp_written", "snap.renamed", "snap.truncated"}
 	case "VImportCommit":
 		midPoints = []string{"snap.tmp_written", "snap.renamed", "snap.truncated"}
-	case "SaveSnapshot", "RewriteAOF", "Reopen", "VDeleteCut", "SnapshotCut", "":
+	case "SaveSnapshot", "RewriteAOF", "Reopen", "VDeleteCut", "VDeleteSnapCut", "SnapshotCut", "":
 	default:
 		points["op.journaled"] = img("journaled")
 	}
@@ -420,7 +420,7 @@ func runCrashCase(p eng.Profile, c crashCase, tornAll bool, res *crashOut) {
 			continue
 		}
 		switch name {
-		case "Reopen", "Refine", "Vacuum", "GraphVacuum", "SaveSnapshot", "VGetConnections", "SnapshotCut":
+		case "Reopen", "Refine", "Vacuum", "GraphVacuum", "SaveSnapshot", "VGetConnections", "SnapshotCut", "VDeleteSnapCut":
 			continue
 		}
 		break
